@@ -20,12 +20,14 @@ pub fn join_handle(handle: JoinHandle, epoch: &mut Ghost<nat>) -> (r: core::resu
 pub struct ConnectionState { pub id: Ghost<int> }
 pub struct HandlerGuardStub { pub exit_events: Ghost<nat> }
 impl HandlerGuardStub {
+    // assumed: ENV VhostUserHandler::send_exit_event raises every worker's exit event (handler.rs: loop over handlers; the counter records the call)
     #[verifier::external_body]
     pub fn send_exit_event(&mut self) ensures final(self).exit_events@ == old(self).exit_events@ + 1 { unimplemented!() }
 }
 pub struct PathStub;
 pub struct Listener;
 impl Listener {
+    // assumed: A-OS Listener::new binds the socket (may fail)
     #[verifier::external_body]
     pub fn new(socket: PathStub, unlink: bool) -> (r: core::result::Result<Listener, VhostUserError>) { unimplemented!() }
 }
@@ -49,10 +51,12 @@ impl VhostUserDaemon {
         ensures r == (self.conn_state is Some && (if self.epoch@ >= 1 { self.flag_after_join@ } else { self.flag_before_join@ }))
     { unimplemented!() }
     // start(): verified elsewhere only through its parts; here an arbitrary outcome
+    // assumed: ENV start() (accept + thread spawn: outside both verifiers): arbitrary outcome, handler untouched
     #[verifier::external_body]
     pub fn start(&mut self, listener: &mut Listener) -> (r: Result<()>)
         ensures final(self).handler == old(self).handler, final(self).started@ == old(self).started@ + 1, final(self).waited@ == old(self).waited@
     { unimplemented!() }
+    // R8 target: self.handler.lock().unwrap() (assumed: A-LOCK)
     #[verifier::external_body]
     pub fn handler_guard(&mut self) -> (g: &mut HandlerGuardStub)
         ensures *g == old(self).handler, final(self).handler == *final(g), final(self).started@ == old(self).started@, final(self).waited@ == old(self).waited@,
